@@ -23,6 +23,12 @@ func main() {
 	c.Assume("amounts are small naturals in the model; real magnitudes are covered by the BigNat trace of the thorough tier")
 	c.Assume("Foundation subsidy is opaque in the bounded model (value checked by the trace spec)")
 
+	if c.Replay != "" {
+		if !chain.Replay(c, chain.RunOpts{}) {
+			c.Fatal("replay file holds no behaviour (trace lines are re-validated by running the check)")
+		}
+		c.Finish()
+	}
 	// 1. design level
 	mc := chain.BaseConfig(chain.Shapes()["v2only"])
 	mc.MaxHeight, mc.MaxTxns, mc.MaxReverts = 2, 2, 1
